@@ -316,6 +316,7 @@ func init() {
 				e1runSP("list-live-n2-d3-2restores", "list", 2, 3, "", o, 2, 0, "live"), // a restored replica is exported and restored again
 				e1runSP("doc-live-n2-d2-2restores", "doc", 2, 2, "", o, 2, 0, "live"),
 				e1runS("counter-n2-d4-3restores", "counter", 2, 4, "", o, 3, 0),
+				e1runSP("counter-bound-n2-d4", "counter", 2, 4, "wrap rich", o, 1, 0, "bound"), // a counter at the edge of its range: what the snapshot holds must be all there is
 				e1runS("doc-emptykey-n2-d4", "doc", 2, 4, "key1 emptykey", o, 1, 0),   // a member whose name is the empty string, live and deleted
 				e1runSP("map-live-n2-d4-2restores", "map", 2, 4, "", o, 2, 0, "live"), // two replicas restored from equal snapshots, then one of them removes
 				// a restored replica runs a failing transaction: its rollback is a second import, of what it exported itself
